@@ -97,6 +97,10 @@ func (r vfRecT) WrapConnection(data *bytes.Buffer, c net.Conn, ip net.IP, rm tra
 	reg, w, err := r.WrappingTransport.WrapConnection(data, c, ip, rm)
 	if lc, ok := c.(vfCallLogger); ok {
 		v := vfCall{T: r.name, N: n, Res: vfClassify(err), Consumed: n - data.Len()}
+		if _, isDecoy := reg.(*cj.DecoyRegistration); err == nil && !isDecoy {
+			// the handler's `!ok` type-assertion branch would be taken: outside the model
+			v.Res = "found_foreign"
+		}
 		if err == nil && reg != nil {
 			for id, x := range rm.GetRegistrations(ip) {
 				if x == reg {
@@ -169,8 +173,13 @@ func (s *vfStation) updatesOf(d *cj.DecoyRegistration) int {
 }
 
 // a fresh phantom address per case, so that cases do not see each other's registrations
+// (every fourth one is an IPv6 address: the handler and the registry are family-independent but
+// for their statistics, and the model has no notion of family)
 func (s *vfStation) freshPhantom() net.IP {
 	n := atomic.AddUint32(&s.ipCtr, 1)
+	if n%4 == 3 {
+		return net.IP{0x20, 0x01, 0x0d, 0xb8, 0, 0, 0, 0, 0, 0, 0, 0, 0, byte(n >> 16), byte(n >> 8), byte(n)}
+	}
 	return net.IPv4(10, byte(n>>16), byte(n>>8), byte(n)).To4()
 }
 
